@@ -486,6 +486,20 @@ class Mixed:
 
 
 @dataclass
+class MixedChoices:
+    """Mixed wildcard that declares primitive choices (the values may be falsy: 0, false, '')."""
+
+    class Meta:
+        name = "mc"
+
+    content: List[object] = field(
+        default_factory=list,
+        metadata={"type": "Wildcard", "namespace": "##any", "mixed": True,
+                  "choices": ({"name": "n", "type": int}, {"name": "flag", "type": bool}, {"name": "s", "type": str})},
+    )
+
+
+@dataclass
 class AnyTyped:
     """anyType element: primitives are emitted with xsi:type."""
 
@@ -592,7 +606,7 @@ class UnionBoxes:
 
 ALL_MODELS = [Basic, TextAttr, TextStr, ReqText, Lists, TokenLists, Frozen, Nillable, NilChild, NilParent, Child, ParentA, ParentB, NsAttr, Unqualified,
               Sequential, Wrapped, Formats, Unions, Enums, QNames, Alpha, Compound, CompoundSingle, Base, Derived, Sibling, DerivedNest, DerivedB, Dup, Numeric, Textual, UnionModels, RenA, RenB, RenamedUnion, NsAttrParent, ShapeBase, CircleV1, CircleV2, ShapeHolder, Family, Holder,
-              Wild, WildList, Mixed, AnyTyped, Defaults, Temporal]
+              Wild, WildList, Mixed, MixedChoices, AnyTyped, Defaults, Temporal]
 
 
 # --------------------------------------------------------------------------- wildcard namespace modes (C11)
